@@ -153,11 +153,33 @@ def fact_matches(f: Fact, templates: Iterable[Template | str], binds: dict | Non
     return norm.any_match(templates, f.expr, binds) is not None
 
 
+def _bind_variants(site: Site, binds: dict | None) -> list[dict | None]:
+    """facts are stored over expanded values (copy propagation): a hole pre-bound to a local must also match that local's definition"""
+    if not binds:
+        return [binds]
+    out: list[dict | None] = [binds]
+    exp = {}
+    changed = False
+    for k, v in binds.items():
+        node = ast.parse(v, mode="eval").body if isinstance(v, str) else v
+        try:
+            e = site.expand(node)
+        except Exception:  # noqa: BLE001
+            e = node
+        exp[k] = e
+        if ast.dump(e) != ast.dump(node):
+            changed = True
+    if changed:
+        out.append(exp)
+    return out
+
+
 def has_fact(site: Site, templates: Iterable[Template | str], binds: dict | None = None) -> Fact | None:
     ts = [T(t) if isinstance(t, str) else t for t in templates]
-    for f in site.facts:
-        if fact_matches(f, ts, binds):
-            return f
+    for b in _bind_variants(site, binds):
+        for f in site.facts:
+            if fact_matches(f, ts, b):
+                return f
     return None
 
 
@@ -255,3 +277,27 @@ def kwarg(call: ast.Call, name: str, pos: int | None = None) -> ast.expr | None:
     if pos is not None and pos < len(call.args) and not any(isinstance(a, ast.Starred) for a in call.args[: pos + 1]):
         return call.args[pos]
     return None
+
+
+def expand_with_loops(site: Site, e: ast.expr) -> ast.expr:
+    """site.expand plus the targets of the enclosing `for` loops: `for i, x in enumerate(X)` makes x stand for `X[i]`, `for x in X`
+    for `X[__i__]` (data flow only, no control dependencies)"""
+    from sa.flow import expand as _expand
+
+    out = site.expand(e)
+    for lp in reversed([l for l in site.loops if isinstance(l, ast.For)]):
+        sub: dict[str, ast.expr] = {}
+        it = lp.iter
+        if isinstance(it, ast.Call) and isinstance(it.func, ast.Name) and it.func.id == "enumerate" and it.args and isinstance(lp.target, ast.Tuple) \
+                and len(lp.target.elts) == 2 and all(isinstance(x, ast.Name) for x in lp.target.elts):
+            base = it.args[0]
+            while isinstance(base, ast.Call) and isinstance(base.func, ast.Name) and base.func.id in ("tuple", "list") and len(base.args) == 1:
+                base = base.args[0]
+            i_, x_ = lp.target.elts
+            sub[x_.id] = ast.Subscript(base, ast.Name(i_.id, ast.Load()), ast.Load())  # type: ignore[union-attr]
+        elif isinstance(lp.target, ast.Name) and not (isinstance(it, ast.Call) and isinstance(it.func, ast.Name) and it.func.id == "range"):
+            sub[lp.target.id] = ast.Subscript(it, ast.Name("__i__", ast.Load()), ast.Load())
+        if sub:
+            out = site.expand(ast.fix_missing_locations(_expand(out, sub)))
+    return out
+
